@@ -159,20 +159,11 @@ Definition u_biprop_loop (a : sx) : sx :=
       match as_Q qq, as_mat v, as_listof as_pos dord, as_nat fu with
       | Some q, Some votes, Some dorder, Some fuel =>
           let d := divisor_by_id dv in
-          let tr tgt := match binit d q votes n with
-                        | inr s => btrace q votes tgt dorder fuel s
-                        | inl _ => []
-                        end in
           match tm with
-          | L [A 0] =>
-              of_bp (evaluate_total d q votes n dorder fuel)
-                    (match HighestAverages.evaluate d (district_totals votes) n [] [] with
-                     | HA_ok tgt None => tr tgt
-                     | _ => []
-                     end)
+          | L [A 0] => let tr := run_total d q votes n dorder fuel in of_bp (snd tr) (fst tr)
           | L [A 1; dd] =>
               match as_dict as_pos as_Z dd with
-              | Some tgt => of_bp (evaluate_core d q votes tgt dorder n fuel) (tr tgt)
+              | Some tgt => let tr := run_core d q votes tgt dorder n fuel in of_bp (snd tr) (fst tr)
               | None => bad_input
               end
           | _ => bad_input
